@@ -91,7 +91,7 @@ CFG = {
     "assumptions": [
         "fewer than 2^31 points per shape and fewer than 2^15 bytes per attribute row and header (go-shp's int32/int16 counters; the layout model uses Nat: Layout.widths_faithful proves agreement within these bounds, Layout.widths_wrap shows the wrap just beyond)",
         "column and field names without non-ASCII upper-case letters (the model lower-cases ASCII only)",
-        "cells parsed as numbers hold decimal literals or FormatFloat's NaN/+Inf/-Inf (hex floats, '_' and other spellings of inf/nan are not modelled)",
+        "cells parsed as numbers hold decimal literals with a decimal exponent of at most 5000 in absolute value (the cap of the C17 parser model; strconv reads 1e-50000000 as 0) or FormatFloat's NaN/+Inf/-Inf (hex floats, '_' and other spellings of inf/nan are not modelled)",
         "a shape of the file's own shape type per record (go-shp writes the FILE's type into every record header, so a Null shape in a typed file is not readable; outside the statement)",
     ],
     "rule": "one case = one shapefile written and read back through real temporary files: writer NewEncoder/Encode (for a third of these a WRITER schedule on the one encoder: record i written with Encode or EncodeFields according to entry i mod k, k=2..4) (reflect.StructOf struct types with generated "
@@ -103,6 +103,8 @@ CFG = {
             "a third of the file cases run with COMPANION objects: a second Encoder (own file, fed every other record in between the main calls) and a second Decoder on the main file advanced in between the main calls - the main results must be unaffected; "
             "field-path files also contain records with 1-2 values MORE than columns (index panic after the cells were written, cursor left behind) followed by further records; "
             "rfile lines: statically declared writer/reader struct types with embedded structs, unexported fields, pointer fields, named types, unsupported kinds, duplicate tags (field descriptions computed by reflection), 0-4 records each; "
+            "phase 4: column names of up to ELEVEN bytes are inside the statement (go-shp's name slot; corpus 7a); every attribute value repeats the previous record's value in its column with probability 1/6 (corpus 7e: runs of identical records); "
+            "one file in 15 carries a BIG geometry (63..2049 vertices in one part, or 64..300 parts/rings) between ordinary records; corpus 7f: files of 260 and 1100 records on both paths; "
             "every row's result (struct, map, geometry) is kept and printed only after the read loop reached the end of the file and Decoder.Close() ran; the bytes of the three real files are part of every answer. "
             "distinct = distinct input line; non-trivial = every class (a case always writes and reads a real file)",
     "trivial_class": r"^$",
